@@ -14,7 +14,7 @@ Theorem C19_first_pass_injective_refuted :
     nth m1 (first_pass tbin delta tsa tsb) (-1)%Z = j /\
     nth m2 (first_pass tbin delta tsa tsb) (-1)%Z = j.
 Proof.
-  exists (1 # 10), 0, wit_tsa, wit_tsb, 0%nat, 1%nat, 0%Z.
+  exists 10%Z, 0%Z, wit_tsa, wit_tsb, 0%nat, 1%nat, 0%Z.
   rewrite first_pass_dup_witness. cbn. repeat split; auto; discriminate.
 Qed.
 Print Assumptions C19_first_pass_injective_refuted.
